@@ -9,6 +9,7 @@ CONSTANTS
   MaxRWRead = 125
   MaxRWWrite = 121
 PROPERTY C09Step
+PROPERTY C09Served
 PROPERTY C10Step
 PROPERTY Isolation
 CHECK_DEADLOCK FALSE
